@@ -219,6 +219,27 @@ theorem C15_ring_spec {ρ} (reqs : List Char → Option ρ) (scs : List Scenario
   rw [e]
   exact ringOK_cycle scs hnd hw n
 
+/-- **from the description to the wire** (the first sentence of the property in one statement): for a scenario `sc` of
+an accepted description, every copy of it in the ring carries the step list its request list MEANS
+(`specSteps`: order, multiplicities, pauses), and a shot of it that does not fail appends to the log exactly one
+request, one successful sample and the pause for each of these steps, in this order — nothing else. -/
+theorem C15_shot_executes_listed {Req Resp : Type} (reqs : List Char → Option ReqDef) (scs : List ScenarioCfg)
+    (ring : List (Scenario ReqDef)) (hnd : (scs.map (·.name)).Nodup) (hw : ∀ sc ∈ scs, 0 ≤ sc.weight)
+    (hd : decodeAmmo reqs scs = .ok ring) (sc : ScenarioCfg) (hsc : sc ∈ scs)
+    (w : World Req Resp) (source : Val) (g g' : GState Req)
+    (h : shoot w source (scenarioOf reqs sc) g = some (true, g')) :
+    ∃ items, parseAll sc.requests = some items ∧
+      specSteps items = some ((scenarioOf reqs sc).steps.map proj) ∧
+      (scenarioOf reqs sc).steps.map (·.name) = specNames items ∧
+      ∃ rcs : List (Req × Int), rcs.length = (specNames items).length ∧
+        g'.log = g.log ++ okRun (String.ofList sc.name) (scenarioOf reqs sc).steps rcs := by
+  obtain ⟨_, hexp, _, _, _⟩ := C15_weights reqs scs ring hnd hw hd
+  obtain ⟨items, hp, hspec, hnames, _⟩ := C15_order_mult reqs sc.requests _ (hexp sc hsc)
+  obtain ⟨hok, _⟩ := C15_stop_on_failure w source (scenarioOf reqs sc) g true g' h
+  obtain ⟨rcs, hlen, hlog⟩ := hok rfl
+  refine ⟨items, hp, hspec, hnames, rcs, ?_, hlog⟩
+  rw [hlen, ← hnames, List.length_map]
+
 /-- a negative weight is refused with an error before anything else (the hypothesis `0 ≤ weight` of `C15_weights`
 is exactly the accepted range; `SpreadNames` never sees a negative weight, so its division and `make` cannot panic) -/
 theorem C15_negative_weight_refused {ρ} (reqs : List Char → Option ρ) (scs : List ScenarioCfg)
@@ -402,6 +423,18 @@ theorem C15_spread_source (scs : List ScenarioCfg) :
           let cnts := ws.map fun w => Gen.C15Scen.spreadCnt w div
           .ok ((scs.map (·.name)).zip cnts, cnts.foldl Gen.C15Scen.spreadTotalStep 0) :=
   Bridge.C15Scen.spreadNames_eq scs
+
+/-- the failed sample of `C15_stop_on_failure`, with the constants regenerated from `gun.go` (`EmptyTag`, the `.` of
+`tag := ammo.Name + "." + req.Name`, `reportErr`: `SetProtoCode(0)`, `AddTag(EmptyTag)`, `SetErr`, `Report`) and from
+`netsample.Sample.AddTag` (the `|`) -/
+theorem C15_failed_sample_source {Req : Type} (scName : String) (st : Step ReqDef) :
+    (Ev.sample (failTag (stepTag scName st)) 0 true : Ev Req) =
+      .sample (scName ++ Gen.C15Scen.stepTagSep ++ st.req.name ++ Gen.C15Scen.tagSep ++ Gen.C15Scen.emptyTag)
+        Gen.C15Scen.failCode Gen.C15Scen.failTagged :=
+  Bridge.C15Scen.failed_sample_eq scName st.req.name
+
+/-- the weights `decodeAmmo` refuses (regenerated condition) are the negative ones of `C15_negative_weight_refused` -/
+theorem C15_refused_source (w : Int) : Gen.C15Scen.weightRefused w ↔ w < 0 := Iff.rfl
 
 /-! ## non-vacuity: concrete inputs meeting the hypotheses of every theorem -/
 
